@@ -231,6 +231,29 @@ fn main() {
                             }
                         }
                     }
+                    "w" => {
+                        // a file written with a time stamp of the writer's choosing (cp -p, rsync -t, an archive)
+                        let root = if f[1] == "S" { &src } else { &dst };
+                        let p = root.join(name_of(f[2].parse().unwrap()));
+                        std::fs::create_dir_all(p.parent().unwrap()).unwrap();
+                        let size: usize = f[3].parse().unwrap();
+                        let c: u8 = f[4].parse::<u64>().unwrap() as u8;
+                        std::fs::write(&p, vec![c; size]).unwrap();
+                        set_mtime(&p, f[5].parse().unwrap());
+                    }
+                    "x" => {
+                        // the state database loses the row of one side at this path
+                        let rel = PathBuf::from(name_of(f[2].parse().unwrap()));
+                        let mut sdb = BisyncStateDb::open(&src, &dst).unwrap();
+                        let all = sdb.load_all().unwrap();
+                        if let Some((a, b)) = all.get(&rel) {
+                            let keep = if f[1] == "S" { b.clone() } else { a.clone() };
+                            sdb.delete(&rel).unwrap();
+                            if let Some(k) = keep {
+                                sdb.store(&k).unwrap();
+                            }
+                        }
+                    }
                     _ => {
                         let boundary = SystemTime::now() - Duration::from_millis(5);
                         let opts = BisyncOptions {
@@ -247,6 +270,21 @@ fn main() {
                         };
                         normalise_fresh(&src, boundary, now);
                         normalise_fresh(&dst, boundary, now);
+                        // rows written by this sync carry the wall-clock mtime of fresh copies: bring them onto the
+                        // logical clock too, exactly like the files they describe
+                        {
+                            let mut sdb = BisyncStateDb::open(&src, &dst).unwrap();
+                            let all = sdb.load_all().unwrap();
+                            for (_p, (a, b)) in all.iter() {
+                                for row in [a, b].into_iter().flatten() {
+                                    if row.mtime >= boundary {
+                                        let mut r2 = row.clone();
+                                        r2.mtime = UNIX_EPOCH + Duration::from_secs(T0 + now);
+                                        sdb.store(&r2).unwrap();
+                                    }
+                                }
+                            }
+                        }
                         let db = BisyncStateDb::open(&src, &dst).unwrap().load_all().unwrap();
                         let mut rows: BTreeMap<u64, String> = BTreeMap::new();
                         for (p, (a, b)) in db.iter() {
